@@ -219,7 +219,7 @@ func retryable(st srvStep) bool {
 var c18Ids atomic.Int64
 
 func checkC18(rep *vk.Report) {
-	rep.Rule = "HTTP: calls through failsafehttp.NewRoundTripper and NewRequest against a loopback server that records every attempt (method, URI, header, body length+SHA-256, arrival time) and follows a per-call script (statuses 200/400/404/418/429/500/501/502/503/504, Retry-After absent/0/1, delayed, streamed, hijack-and-close); body kinds nil/NoBody/*bytes.Buffer/*bytes.Reader/*strings.Reader/file/plain reader/one-byte-per-Read stream with and without a declared ContentLength/empty x sizes 1B-1MiB; request context background/TODO/cancellable/values/deadline x executor context none/cancellable/values/deadline; stacks of retry (failsafehttp.RetryPolicyBuilder), timeout, hedge, breaker, fallback. Oracles: every attempt identical to the original request; attempt count = documented retry rule; gap >= Retry-After seconds on 429/503; returned response is the last attempt's and its body reads to EOF; the context seen by an instrumented inner RoundTripper carries the request context's values and deadline and is done once the caller cancels. A firing hedge with a large body checks overlapping attempts. Attempts ending in net/http's own per-attempt limits (Transport.ResponseHeaderTimeout, Client.Timeout with NewRequest) while the server holds the headers back are retried like any other error (lower bound on the attempts the server sees). gRPC: client and server interceptors driven with fake invoker/handler for all 17 status codes: arguments, reply, error, options passed through unchanged, metadata/values/deadline visible, retries only for Unavailable/DeadlineExceeded/ResourceExhausted. Non-trivial: >=2 attempts, a non-background context, or a body; distinct by (entry, body kind, size class, contexts, stack, script statuses)."
+	rep.Rule = "HTTP: calls through failsafehttp.NewRoundTripper and NewRequest against a loopback server that records every attempt (method, URI, header, body length+SHA-256, arrival time) and follows a per-call script (statuses 200/400/404/418/429/500/501/502/503/504, Retry-After absent/0/1, delayed, streamed, hijack-and-close); body kinds nil/NoBody/*bytes.Buffer/*bytes.Reader/*strings.Reader/file/plain reader/one-byte-per-Read stream with and without a declared ContentLength/empty x sizes 1B-1MiB; request context background/TODO/cancellable/values/deadline x executor context none/cancellable/values/deadline; stacks of retry (failsafehttp.RetryPolicyBuilder), timeout, hedge, breaker, fallback. Oracles: every attempt identical to the original request; attempt count = documented retry rule; gap >= Retry-After seconds on 429/503; returned response is the last attempt's and its body reads to EOF; the context seen by an instrumented inner RoundTripper carries the request context's values and deadline and is done once the caller cancels. A firing hedge with a large body checks overlapping attempts. Attempts ending in net/http's own per-attempt limits (Transport.ResponseHeaderTimeout, Client.Timeout with NewRequest) while the server holds the headers back are retried like any other error (lower bound on the attempts the server sees). An attempt that yields a response together with an error is passed through as it is; one seekable body value sent twice arrives complete on every attempt of both sends. gRPC: client and server interceptors driven with fake invoker/handler for all 17 status codes: arguments, reply, error, options passed through unchanged, metadata/values/deadline visible, retries only for Unavailable/DeadlineExceeded/ResourceExhausted. Non-trivial: >=2 attempts, a non-background context, or a body; distinct by (entry, body kind, size class, contexts, stack, script statuses)."
 	rep.Assumptions = []string{
 		"A9: Retry-After is only required to be honoured on 429 and 503, integer seconds",
 		"loopback networking works in the sandbox; TLS, x509 and redirect branches of the retry predicate are not driven",
@@ -247,6 +247,13 @@ func checkC18(rep *vk.Report) {
 			return
 		}
 		c18AttemptTimeouts(rep, idx, srv)
+	})
+	vk.Parallel(scale(rep, 100, 4000), 8, func(i int) {
+		if rep.Skip(5100000 + i) {
+			return
+		}
+		c18ResponseWithError(rep, 5100000+i)
+		c18SameBodyTwice(rep, 5200000+i, srv)
 	})
 	ng := scale(rep, 600, 40000)
 	vk.Parallel(ng, 16, func(i int) {
